@@ -76,6 +76,10 @@ type gen struct {
 	n     int
 	decls []*tdecl
 	perT  bool // tags on every declaration instead of the package
+	// same-package interface types (enabled like every other declaration, with or without the interfaces sub-tag; the
+	// generator has nothing to render for them - seeded change C17-l) that struct fields may use
+	ifaceTypes []string
+	ifaceDecls int
 }
 
 func (g *gen) name(p string) string {
@@ -157,6 +161,9 @@ func (g *gen) structDecl(maxDepth int) *tdecl {
 			}
 		case 7:
 			ft = []string{"error", "any", "io.Reader", "fmt.Stringer", "interface{}"}[g.r.Intn(5)]
+			if len(g.ifaceTypes) > 0 && g.r.Intn(3) == 0 {
+				ft = g.ifaceTypes[g.r.Intn(len(g.ifaceTypes))]
+			}
 			t.nontriv = true
 		case 8:
 			ft = []string{"time.Duration", "time.Time"}[g.r.Intn(2)]
@@ -242,6 +249,18 @@ func (g *gen) generate(pkg string) string {
 		d.src = g.tagLine(d, false) + fmt.Sprintf("type %s map[%s]%s\n\n", d.name, key, []string{"int", "string", "float64"}[g.r.Intn(3)])
 		d.inst = d.name
 		add(d)
+	}
+	// same-package interface types: a named empty interface and one with a method (time.Duration implements it)
+	if g.r.Intn(3) != 0 {
+		for i, body := range []string{"interface{}", "interface {\n\tString() string\n}"} {
+			if i == 1 && g.r.Intn(2) == 0 {
+				continue
+			}
+			d := &tdecl{name: g.name([]string{"AnyIface", "StrIface"}[i]), kind: "iface"}
+			b.WriteString(g.tagLine(d, g.r.Intn(2) == 0) + fmt.Sprintf("type %s %s\n\n", d.name, body))
+			g.ifaceTypes = append(g.ifaceTypes, d.name)
+			g.ifaceDecls++
+		}
 	}
 	// generic structs with bare type-parameter fields
 	if g.r.Intn(3) != 0 {
@@ -362,6 +381,12 @@ func c17fill(r *c17rng, v reflect.Value, depth int) {
 			x = time.Second
 		default:
 			x = int(r.next() % 50)
+		}
+		if !reflect.TypeOf(x).Implements(v.Type()) {
+			x = time.Duration(r.next() % 50)
+			if !reflect.TypeOf(x).Implements(v.Type()) {
+				return
+			}
 		}
 		v.Set(reflect.ValueOf(x))
 	}
@@ -530,6 +555,7 @@ func (p *prop) runBatch(c core.Case, w *core.Worker, res *core.Result, r *rand.R
 		name := fmt.Sprintf("q%d", i)
 		src := g.generate(name)
 		pks = append(pks, pk{name, src, g.decls})
+		res.Count("same_package_interface_types_declared", int64(g.ifaceDecls))
 		m.MustWrite(filepath.Join(name, "types.go"), src)
 		entries = append(entries, "./"+name)
 	}
